@@ -6,6 +6,7 @@
                    cycle), and the counter is incremented inside the cycle.  Without it a few thousand nested parentheses
                    overflow the stack, which aborts the process.
  A1 CHECKED-ARITH  (shared with C20) SQL integer arithmetic sites are checked.
+ R4 STR-SLICE-OFFSET  in the SQL scalar functions no SQL integer argument flows into the byte range of a str slice.
 Explicit unwrap/expect/index reachability from the API is NOT claimed (hundreds of sites, no exact value-insensitive rule).
 """
 import recur, arith
@@ -97,6 +98,7 @@ def run(ctx):
     ctx.clause += " Slice adaptors that panic on a zero size (windows/chunks*/rchunks*/step_by) receive a provably non-zero size."
     nonzero_sizes(ctx)
     loop_progress(ctx)
+    str_slice_offsets(ctx)
 
 
 ZERO_PANICS = ("windows", "chunks", "chunks_exact", "chunks_mut", "chunks_exact_mut", "rchunks", "rchunks_exact", "rchunks_mut", "step_by")
@@ -246,3 +248,38 @@ def loop_progress(ctx):
                    "the loop at L%s can return to its header without moving its cursor: a `continue` (or fall-through) path forgets the increment and "
                    "the parser spins forever on the same input position" % f.blocks[h].get("l"), "%s:%s" % (f.file, f.blocks[h].get("l")))
     ctx.floor("R3.cursor_loops", n, 5)
+
+
+
+def str_slice_offsets(ctx):
+    """R4 STR-SLICE-OFFSET: `&s[a..b]` on a str panics when an offset is not a char boundary.  In the SQL scalar functions a SQL
+    integer argument is a character position; it must never flow into the range of a str slice (byte offsets come from find / len /
+    char_indices on the same string).  Decided per slice site by backward data dependence of the range operands."""
+    import dmlrules
+    from model import operand_place
+    m = ctx.m
+    n = 0
+    for f in sorted(m.fns.values(), key=lambda f: f.id):
+        if not f.id.startswith("sql::functions::"):
+            continue
+        ints = {c.dest[0] for c in f.calls if c.dest is not None and c.name.rsplit("::", 1)[-1] in ("get_int", "get_i64", "as_int", "to_i64")}
+        for c in f.calls:
+            if not (c.name.endswith("for str>::index") and "Range" in c.full):
+                continue
+            n += 1
+            q = operand_place(c.args[1]) if len(c.args) > 1 else None
+            dep = dmlrules._deps(f, q[0], 300) if q is not None else set()
+            bad = bool(dep & ints)
+            # SQL integers are i64 and byte offsets usize: a signed-to-usize cast in the dependence closure is the same flow
+            # (get_int is usually passed as a function value to and_then, not called directly)
+            for l in dep:
+                for d in f.defs().get(l, []):
+                    if d[0] == "stmt" and d[3][0] == "cast" and d[3][1] == "IntToInt":
+                        q2 = operand_place(d[3][2])
+                        if q2 is not None and not q2[1] and f.locals[q2[0]] in ("i64", "i32", "i128"):
+                            bad = True
+            k = "%s@%d" % (f.id.rsplit("::", 1)[-1], len([1 for o in ctx.obs if o["rule"] == "R4.STR-SLICE-OFFSET" and o["key"].startswith(f.id.rsplit("::", 1)[-1] + "@")]))
+            ctx.ob("R4.STR-SLICE-OFFSET", k, not bad, "slice offsets do not derive from a SQL integer argument" if not bad else
+                   "a SQL integer argument (a character position) is used as a byte offset of a str slice: the slice panics when it lands "
+                   "inside a multi-byte character", c.loc())
+    ctx.floor("R4.str_slice_sites", n, 2)
